@@ -631,6 +631,11 @@ package mux
 //@        (forall k int :: 0 <= k && k < len(g.routers) ==> g.routers[k] == old(g.routers[k]))
 //@   inv 1 routers-ok: allSafe() && (forall k int :: 0 <= k && k < len(g.routers) ==> g.routers[k] != nil && routerOK(g.routers[k]))
 
+//@ fn Trace
+//@   requires w != nil && r != nil
+//@   callsonly [C18] trace.Trace
+//@   atcall trace.Trace [C18] delegate: arg0 == w && arg1 == r && arg2 == body
+//
 // ---------------------------------------------------------------- options.go: the library's own recovery functions (C16)
 // A recovery function contains the panic: it must not raise one itself, whatever the panic value is.
 //@ fn WithStatusRecovery$1
